@@ -16,6 +16,7 @@ import (
 	_ "github.com/cbeuw/Cloak/internal/multiplex"
 	_ "github.com/cbeuw/Cloak/internal/server"
 	_ "github.com/cbeuw/Cloak/internal/server/usermanager"
+	_ "github.com/cbeuw/Cloak/internal/vref"
 	_ "github.com/cbeuw/Cloak/internal/vself"
 	"github.com/cbeuw/Cloak/internal/vx"
 	log "github.com/sirupsen/logrus"
